@@ -3,5 +3,4 @@ INVARIANT TypeOK
 INVARIANT Total
 INVARIANT NoStuck
 INVARIANT Progress
-INVARIANT LexVerdict
 CHECK_DEADLOCK FALSE
